@@ -125,6 +125,22 @@ func (p *Prog) expr(v ssa.Value, onPath map[ssa.Value]bool, depth int) *Expr {
 		// an element of a local array literal of constants: the constant, or
 		// the alternatives in array order when the index varies
 		if ld, ok := v.X.(*ssa.UnOp); ok && ld.Op == token.MUL {
+			var elems []ssa.Value
+			if g, ok := ld.X.(*ssa.Global); ok {
+				elems = p.globalTable(g)
+			}
+			if elems != nil {
+				if c, ok := v.Index.(*ssa.Const); ok && c.Value != nil {
+					if k, ok := constant.Int64Val(c.Value); ok && k >= 0 && int(k) < len(elems) {
+						return sub(elems[k])
+					}
+				}
+				e := &Expr{Op: "phi", Name: "table", Val: v}
+				for _, el := range elems {
+					e.Args = append(e.Args, sub(el))
+				}
+				return e
+			}
 			if al, ok := ld.X.(*ssa.Alloc); ok {
 				if elems := constTable(al, ld); elems != nil {
 					if c, ok := v.Index.(*ssa.Const); ok && c.Value != nil {
@@ -375,6 +391,24 @@ func (p *Prog) CellDefs(a *ssa.Alloc) (stores []*ssa.Store, calls []ssa.CallInst
 
 func (p *Prog) load(u *ssa.UnOp, onPath map[ssa.Value]bool, depth int) *Expr {
 	root := p.cellRoot(u.X)
+	if ia, ok := u.X.(*ssa.IndexAddr); ok && root == nil {
+		// an element of a package-level array that is filled once, with
+		// constants, by the package initialiser and never written again
+		if g, ok := ia.X.(*ssa.Global); ok {
+			if elems := p.globalTable(g); elems != nil {
+				if c, ok := ia.Index.(*ssa.Const); ok && c.Value != nil {
+					if k, ok := constant.Int64Val(c.Value); ok && k >= 0 && int(k) < len(elems) {
+						return p.expr(elems[k], onPath, depth+1)
+					}
+				}
+				e := &Expr{Op: "phi", Name: "table", Val: u}
+				for _, el := range elems {
+					e.Args = append(e.Args, p.expr(el, onPath, depth+1))
+				}
+				return e
+			}
+		}
+	}
 	if root == nil {
 		inner := p.expr(u.X, onPath, depth+1)
 		switch inner.Op {
@@ -853,4 +887,105 @@ func (p *Prog) WithCreator(mc *ssa.MakeClosure, f func()) {
 		}
 	}()
 	f()
+}
+
+// globalTable returns the constant elements of a package-level array variable
+// that only its package initialiser writes (one constant per element through
+// constant indexes) and that no other instruction of the module refers to except
+// to index it; nil otherwise.
+func (p *Prog) globalTable(g *ssa.Global) []ssa.Value {
+	if p.gtables == nil {
+		p.gtables = map[*ssa.Global][]ssa.Value{}
+	}
+	if t, ok := p.gtables[g]; ok {
+		return t
+	}
+	p.gtables[g] = nil
+	pt, ok := g.Type().(*types.Pointer)
+	if !ok {
+		return nil
+	}
+	at, ok := pt.Elem().Underlying().(*types.Array)
+	if !ok || at.Len() == 0 || at.Len() > 64 || g.Pkg == nil {
+		return nil
+	}
+	if _, inMod := p.ByPath[g.Pkg.Pkg.Path()]; !inMod {
+		return nil
+	}
+	elems := make([]ssa.Value, at.Len())
+	var fns []*ssa.Function
+	fns = append(fns, p.srcFuncs...)
+	for _, sp := range p.ByPath {
+		if init := sp.Func("init"); init != nil {
+			fns = append(fns, init)
+		}
+	}
+	var rands []*ssa.Value
+	visited := map[*ssa.Function]bool{}
+	for _, f := range fns {
+		if visited[f] {
+			continue
+		}
+		visited[f] = true
+		isInit := f.Name() == "init" && f.Parent() == nil && f.Pkg == g.Pkg
+		for _, b := range f.Blocks {
+			for _, in := range b.Instrs {
+				rands = in.Operands(rands[:0])
+				uses := false
+				for _, r := range rands {
+					if *r == ssa.Value(g) {
+						uses = true
+					}
+				}
+				if !uses {
+					continue
+				}
+				// the whole array: loaded (to be indexed or ranged over), or set
+				// once by the initialiser from a literal of constants
+				if ld, ok := in.(*ssa.UnOp); ok && ld.Op == token.MUL && ld.X == ssa.Value(g) {
+					continue
+				}
+				if st, ok := in.(*ssa.Store); ok && st.Addr == ssa.Value(g) && isInit {
+					if src, ok := st.Val.(*ssa.UnOp); ok && src.Op == token.MUL {
+						if al, ok := src.X.(*ssa.Alloc); ok {
+							if lit := constTable(al, src); lit != nil && elems[0] == nil {
+								copy(elems, lit)
+								continue
+							}
+						}
+					}
+					return nil
+				}
+				ia, ok := in.(*ssa.IndexAddr)
+				if !ok {
+					return nil // sliced, copied, passed on: give up
+				}
+				for _, ref := range *ia.Referrers() {
+					switch r := ref.(type) {
+					case *ssa.UnOp:
+					case *ssa.Store:
+						c, isC := ia.Index.(*ssa.Const)
+						v, isV := r.Val.(*ssa.Const)
+						if !isInit || r.Addr != ssa.Value(ia) || !isC || !isV || c.Value == nil {
+							return nil
+						}
+						k, ok := constant.Int64Val(c.Value)
+						if !ok || k < 0 || k >= at.Len() || elems[k] != nil {
+							return nil
+						}
+						elems[k] = v
+					default:
+						return nil
+					}
+				}
+			}
+		}
+	}
+	for _, e := range elems {
+		if e == nil {
+			return nil
+		}
+	}
+	p.gtables[g] = elems
+	return elems
 }
